@@ -216,6 +216,87 @@ theorem pow_zero_zero (a b : LB) (ha : a.wf) (hb : b.wf) (h : a.den = 0 ∧ b.de
     rw [Bool.and_eq_true, isZero_iff b hb, isZero_iff a ha]; omega
   rw [h1, h2]; rfl
 
+/-! ### equal integers are indistinguishable: canonical form, hash, order -/
+
+/-- canonical form: a well-formed representation is determined by the integer it denotes -/
+theorem wf_den_inj (a b : LB) (ha : a.wf) (hb : b.wf) (h : a.den = b.den) : a = b := by
+  cases a <;> cases b <;> lb_norm <;> simp only [LB.short.injEq, LB.long.injEq, reduceCtorEq] <;> omega
+
+/-- `to_u64` succeeds exactly on `[0, 2^64)` -/
+theorem toU64_spec (a : LB) (ha : a.wf) :
+    LB.toU64 a = if 0 ≤ a.den ∧ a.den < 18446744073709551616 then some a.den else none := by
+  cases a with
+  | short v =>
+    rw [wf_short] at ha
+    show (if 0 ≤ v then some v else none) = if 0 ≤ v ∧ v < 18446744073709551616 then some v else none
+    by_cases h : 0 ≤ v
+    · rw [if_pos h, if_pos ⟨h, by omega⟩]
+    · rw [if_neg h, if_neg (fun h' => h h'.1)]
+  | long v => rfl
+
+/-- `first_u64_digit`: the low 64 bits (of the two's complement for a small value, of the magnitude for a big one) -/
+theorem firstU64Digit_spec (a : LB) (ha : a.wf) :
+    (LB.firstU64Digit a).wf ∧ 0 ≤ (LB.firstU64Digit a).den ∧ (LB.firstU64Digit a).den < 18446744073709551616 ∧
+    (LB.firstU64Digit a).den =
+      (match a with | .short s => s % 18446744073709551616 | .long b => (b.natAbs : Int) % 18446744073709551616) := by
+  cases a with
+  | short v =>
+    rw [wf_short] at ha
+    simp only [LB.firstU64Digit, ofInt_wf, ofInt_den, U64_MOD, true_and]
+    split <;> omega
+  | long v =>
+    have e : ∀ x y : Int, Int.emod x y = x % y := fun _ _ => rfl
+    simp only [LB.firstU64Digit, ofInt_wf, ofInt_den, U64_MOD, true_and, e]
+    refine ⟨by omega, by omega, trivial⟩
+
+/-- equal integers hash equally, and the hash is an integer in `[0, 2^64)` -/
+theorem hash_congr (a b : LB) (ha : a.wf) (hb : b.wf) (h : a.den = b.den) :
+    IntB.hash a = IntB.hash b ∧ ∃ r, IntB.hash a = .int r ∧ r.wf ∧ 0 ≤ r.den ∧ r.den < 18446744073709551616 := by
+  have := wf_den_inj a b ha hb h
+  subst this
+  refine ⟨rfl, ?_⟩
+  unfold IntB.hash
+  rw [toU64_spec a ha]
+  by_cases h : 0 ≤ a.den ∧ a.den < 18446744073709551616
+  · rw [if_pos h]; exact ⟨a, rfl, ha, h.1, h.2⟩
+  · rw [if_neg h]
+    have := firstU64Digit_spec a ha
+    exact ⟨_, rfl, this.1, this.2.1, this.2.2.1⟩
+
+/-- `cmp(a, b)` is -1 / 0 / 1: the sign of the difference -/
+theorem cmp_builtin (a b : LB) (ha : a.wf) (hb : b.wf) :
+    IntB.cmp a b = .int (short (a.den - b.den).sign) := by
+  unfold IntB.cmp; rw [cmp_spec a b ha hb]
+  rcases Int.lt_trichotomy a.den b.den with h | h | h
+  · rw [Int.compare_eq_lt.mpr h, Int.sign_eq_neg_one_iff_neg.mpr (by omega)]
+  · rw [Int.compare_eq_eq.mpr h, h, Int.sub_self]; rfl
+  · rw [Int.compare_eq_gt.mpr h, Int.sign_eq_one_iff_pos.mpr (by omega)]
+
+set_option linter.unusedSimpArgs false in
+/-- `<`, `<=`, `>`, `>=`, `==`, `!=` of the language agree with the integer order -/
+theorem order_builtins (a b : LB) (ha : a.wf) (hb : b.wf) :
+    IntB.lt a b = .bool (decide (a.den < b.den)) ∧ IntB.le a b = .bool (decide (a.den ≤ b.den)) ∧
+    IntB.gt a b = .bool (decide (a.den > b.den)) ∧ IntB.ge a b = .bool (decide (a.den ≥ b.den)) ∧
+    IntB.eq a b = .bool (decide (a.den = b.den)) ∧ IntB.ne a b = .bool (decide (a.den ≠ b.den)) := by
+  unfold IntB.lt IntB.le IntB.gt IntB.ge IntB.eq IntB.ne
+  rw [cmp_spec a b ha hb]
+  have he := eq_iff a b ha hb
+  have e1 : (Ordering.lt != Ordering.gt) = true := by decide
+  have e2 : (Ordering.lt != Ordering.lt) = false := by decide
+  have e3 : (Ordering.eq != Ordering.gt) = true := by decide
+  have e4 : (Ordering.eq != Ordering.lt) = true := by decide
+  have e5 : (Ordering.gt != Ordering.gt) = false := by decide
+  have e6 : (Ordering.gt != Ordering.lt) = true := by decide
+  rcases Int.lt_trichotomy a.den b.den with h | h | h
+  · rw [Int.compare_eq_lt.mpr h]
+    have : LB.beq a b = false := by rw [← Bool.not_eq_true, he]; omega
+    simp [this, e1, e2]; omega
+  · rw [Int.compare_eq_eq.mpr h]
+    have : LB.beq a b = true := he.mpr h
+    simp [this, e3, e4]; omega
+  · rw [Int.compare_eq_gt.mpr h]
+    have : LB.beq a b = false := by rw [← Bool.not_eq_true, he]; omega
+    simp [this, e5, e6]; omega
 /-- non-vacuity: operands straddling 2^63 -/
 example : Correct (LB.mul (long 9223372036854775808) (short (-1))) (-9223372036854775808) :=
   ⟨_, rfl, by decide, rfl⟩
